@@ -77,12 +77,12 @@ func Main(args []string) int {
 		bfsDepth = 0
 	}
 	start := time.Now()
-	// the program level is cheap and goes first; then the exhaustive interface enumeration; the merged BFS
-	// gets what is left (at least 15% of the budget is reserved for it in the thorough tier).
-	progDeadline := start.Add(budget / 4)
-	ifaceDeadline := start.Add(budget)
+	// Order: shallow first (iterative deepening across both levels), so that a short budget still covers
+	// every short sequence and program completely. One deadline for the exhaustive part; in the thorough
+	// tier the last 20% of the budget are reserved for the merged BFS.
+	exhaustiveDeadline := start.Add(budget)
 	if bfsDepth > 0 {
-		ifaceDeadline = start.Add(budget * 80 / 100)
+		exhaustiveDeadline = start.Add(budget * 80 / 100)
 	}
 	bfsDeadline := start.Add(budget)
 
@@ -94,47 +94,52 @@ func Main(args []string) int {
 		}
 	}
 
-	// ---- program level
-	pe := newProgEngine(workers, progDeadline)
-	progExhaustive := true
-	for n := 0; n <= progLen; n++ {
-		if !pe.enumerate(n) {
-			progExhaustive = false
-			break
-		}
-		pe.stats.completedLen = n
-	}
-	progWall := time.Since(start)
-
-	// ---- interface level
-	ie := newIfaceEngine(workers, ifaceDeadline)
-	t1 := time.Now()
-	ifaceExhaustive := true
-	if ie.enumerate("full", fullLen, -1) {
-		ie.stats.completedFullLen = fullLen
-		// the core pass re-walks lengths <= fullLen (already counted: core is a subset of full) and counts
-		// only the longer sequences
-		for l := fullLen + 1; l <= coreLen; l++ {
-			if !ie.enumerate("core", l, l-1) {
-				ifaceExhaustive = false
+	pe := newProgEngine(workers, exhaustiveDeadline)
+	ie := newIfaceEngine(workers, exhaustiveDeadline)
+	progExhaustive, ifaceExhaustive := true, true
+	var progWall, ifaceWall time.Duration
+	progNext := 0
+	programsUpTo := func(n int) {
+		t := time.Now()
+		for ; progExhaustive && progNext <= n && progNext <= progLen; progNext++ {
+			if !pe.enumerate(progNext) {
+				progExhaustive = false
 				break
 			}
-			ie.stats.completedCoreLen = l
+			pe.stats.completedLen = progNext
 		}
-		if ie.stats.completedCoreLen == 0 {
-			ie.stats.completedCoreLen = fullLen
-		}
-		for l := coreLen + 1; ifaceExhaustive && l <= core5Len; l++ {
-			if !ie.enumerate("core5", l, l-1) {
-				ifaceExhaustive = false
-				break
-			}
-			ie.stats.completedCore5Len = l
-		}
-	} else {
-		ifaceExhaustive = false
+		progWall += time.Since(t)
 	}
-	ifaceWall := time.Since(t1)
+	// pass runs every sequence over the alphabet of exactly length l (shorter ones were counted by earlier
+	// passes: core5 is a subset of core, core of full)
+	pass := func(alpha string, l int, done *int) {
+		if !ifaceExhaustive {
+			return
+		}
+		t := time.Now()
+		if ie.enumerate(alpha, l, l-1) {
+			*done = l
+		} else {
+			ifaceExhaustive = false
+		}
+		ifaceWall += time.Since(t)
+	}
+	for l := 0; l <= fullLen && l <= 2; l++ {
+		pass("full", l, &ie.stats.completedFullLen)
+	}
+	programsUpTo(2)
+	for l := 3; l <= fullLen; l++ {
+		pass("full", l, &ie.stats.completedFullLen)
+	}
+	programsUpTo(3)
+	ie.stats.completedCoreLen = ie.stats.completedFullLen
+	for l := fullLen + 1; l <= coreLen; l++ {
+		pass("core", l, &ie.stats.completedCoreLen)
+	}
+	programsUpTo(progLen)
+	for l := coreLen + 1; l <= core5Len; l++ {
+		pass("core5", l, &ie.stats.completedCore5Len)
+	}
 
 	// ---- merged BFS
 	var bs bfsStats
